@@ -5,8 +5,9 @@
 //   'suspended' (source suspended while the threads merge, resumed after the join) and
 //   'reentrant' (the first handler invocation itself merges the value 32)
 #include "hcommon.h"
+#include <dispatch/private.h>
 
-typedef struct { const char *name; int nthr; int vals[3][3]; int suspended, reentrant, inactive; } script;
+typedef struct { const char *name; int nthr; int vals[3][3]; int suspended, reentrant, inactive, nulltarget; } script;
 static const script SCRIPTS[] = {
 	{ "T0:[1] T1:[2]", 2, { {1}, {2} }, 0, 0 },
 	{ "T0:[1,4] T1:[2]", 2, { {1, 4}, {2} }, 0, 0 },
@@ -17,6 +18,10 @@ static const script SCRIPTS[] = {
 	{ "T0:[1,4,16]", 1, { {1, 4, 16} }, 0, 0 },
 	{ "not yet activated (dispatch_activate after the merges) T0:[1,4] T1:[2]", 2, { {1, 4}, {2} }, 0, 0, 1 },
 	{ "dispatch_activate racing the merges T0:[activate,1,4] T1:[2]", 2, { {1, 4}, {2} }, 0, 0, 2 },
+	// the source's target is the default (NULL: an overcommit root queue, no queue of its own in between); the 'target' coordinate is ignored
+	{ "default target (NULL) reentrant T0:[1]", 1, { {1} }, 0, 1, 0, 1 },
+	{ "default target (NULL) reentrant T0:[1] T1:[2]", 2, { {1}, {2} }, 0, 1, 0, 1 },
+	{ "default target (NULL) T0:[1,4] T1:[2]", 2, { {1, 4}, {2} }, 0, 0, 0, 1 },
 };
 #define NSCRIPTS ((int)(sizeof(SCRIPTS) / sizeof(SCRIPTS[0])))
 static const char *const TYPES[] = { "DATA_ADD", "DATA_OR", "DATA_REPLACE" };
@@ -26,7 +31,7 @@ static const char *const TARGETS[] = { "serial queue", "concurrent queue", "glob
 
 static dispatch_source_t g_src;
 static const script *g_s;
-static int g_type, g_seen_sentinel, g_first = 1, g_reent_done;
+static int g_type, g_seen_sentinel, g_first = 1, g_reent_done, g_ninv;
 static unsigned long g_sum, g_or;
 enum { EV_MERGE_CALL = EV_USER, EV_MERGE_RET, EV_DELIVER };
 
@@ -36,6 +41,7 @@ static void handler(void *ctx)
 	vx_ev(EV_START, HANDLER, 0);
 	unsigned long v = dispatch_source_get_data(g_src);
 	vx_ev(EV_DELIVER, 0, (int64_t)v);
+	g_ninv++;
 	g_sum += v; g_or |= v;
 	if (g_type == 2 ? v == SENTINEL : (v & SENTINEL)) g_seen_sentinel = 1;
 	if (g_s->reentrant && g_first) {
@@ -70,11 +76,11 @@ static void run(int v)
 {
 	g_type = v % 3; g_s = &SCRIPTS[v / 9];
 	int tk = (v / 3) % 3;
-	g_sum = g_or = 0; g_seen_sentinel = 0; g_first = 1; g_reent_done = 0;
+	g_sum = g_or = 0; g_seen_sentinel = 0; g_first = 1; g_reent_done = 0; g_ninv = 0;
 	vx_set_horizon(12ull * 1000000000ull);
-	dispatch_queue_t q = tk == 0 ? dispatch_queue_create("vx.src", NULL) :
+	dispatch_queue_t q = g_s->nulltarget ? NULL : tk == 0 ? dispatch_queue_create("vx.src", NULL) :
 			tk == 1 ? dispatch_queue_create("vx.src", DISPATCH_QUEUE_CONCURRENT) : dispatch_get_global_queue(0, 0);
-	int d = 0; dispatch_async_f(q, &d, warm_fn); int *a[2] = { &d, (int *)(intptr_t)1 }; vx_wait_until(pred_int_ge, a);
+	int d = 0; dispatch_async_f(q ? q : dispatch_get_global_queue(0, DISPATCH_QUEUE_OVERCOMMIT), &d, warm_fn); int *a[2] = { &d, (int *)(intptr_t)1 }; vx_wait_until(pred_int_ge, a);
 	dispatch_source_type_t ty = g_type == 0 ? DISPATCH_SOURCE_TYPE_DATA_ADD : g_type == 1 ? DISPATCH_SOURCE_TYPE_DATA_OR : DISPATCH_SOURCE_TYPE_DATA_REPLACE;
 	g_src = dispatch_source_create(ty, 0, 0, q);
 	dispatch_source_set_event_handler_f(g_src, handler);
@@ -92,6 +98,10 @@ static void run(int v)
 		// the sentinel must be the strictly last merge: wait for the handler's own merge first
 		int *c[2] = { &g_reent_done, (int *)(intptr_t)1 };
 		vx_wait_until(pred_int_ge, c);
+		// ... and that merge must be delivered by a further invocation WITHOUT any help from a later merge
+		// (a stuck witness here means the value merged from the handler was left pending with the source idle)
+		int *c2[2] = { &g_ninv, (int *)(intptr_t)2 };
+		vx_wait_until(pred_int_ge, c2);
 	}
 	vx_ev(EV_MERGE_CALL, 90, SENTINEL);
 	dispatch_source_merge_data(g_src, SENTINEL);
